@@ -25,16 +25,17 @@ import (
 func init() { props["c20"] = runC20 }
 
 type cfgFile struct {
-	Loadable bool
-	Services []string // nil = key omitted
-	HasSvc   bool
-	Roles    map[string]string // nil = key omitted (role -> "*" | "list")
-	HasRoles bool
-	Keys     []string
-	HasKeys  bool
-	Text     string
-	Kind     string
-	Poll     string // "" omitted, "ok", "bad"
+	Loadable   bool
+	Services   []string // nil = key omitted
+	HasSvc     bool
+	Roles      map[string]string // nil = key omitted (role -> "*" | "list")
+	HasRoles   bool
+	Keys       []string
+	HasKeys    bool
+	Text       string
+	Kind       string
+	Poll       string // "" omitted, "ok", "bad"
+	TwoEntries bool   // the plugin is configured twice; the fields above describe the later entry
 }
 
 func (f *cfgFile) term() string {
@@ -111,6 +112,13 @@ func genCfgFile(r *mrand.Rand, urls []string, pems map[string]string, first bool
 		pcfg["public-keys"] = keys
 	}
 	doc["plugins"] = []interface{}{map[string]interface{}{"name": "auth-jwt", "config": pcfg}}
+	if r.Intn(4) == 0 {
+		// the same plugin configured twice (as with a base file and an override): the later entry is the one in force
+		early := map[string]interface{}{"roles": map[string]interface{}{[]string{"admin", "early", "ops"}[r.Intn(3)]: map[string]interface{}{"query": []string{"e"}}},
+			"public-keys": map[string]string{}}
+		doc["plugins"] = []interface{}{map[string]interface{}{"name": "auth-jwt", "config": early}, map[string]interface{}{"name": "auth-jwt", "config": pcfg}}
+		f.TwoEntries = true
+	}
 	if !first {
 		switch r.Intn(10) {
 		case 0:
@@ -178,7 +186,7 @@ func observeConfig(cfg *bramble.Config, es *bramble.ExecutableSchema, jp *plugin
 func runC20(cfg runCfg) error {
 	r := mrand.New(mrand.NewSource(cfg.seed))
 	sum := &summary{Property: "C20", Seed: cfg.seed, Features: map[string]int{}, CaseInputs: map[string]interface{}{},
-		Rule: "random histories (2..8 edits) of one config file: services added/removed/reordered/duplicated or the key omitted; JWT roles and public keys added/removed or the key omitted; invalid JSON, wrong type, invalid duration; BRAMBLE_SERVICE_LIST set or not; after every edit a synchronous reload, then the in-memory list, the federated services, the JWT role table and key ids are read back and a fresh start on the same file is taken for comparison; non-trivial = history contains an omitted key, a removal or an unloadable edit"}
+		Rule: "random histories (2..8 edits) of one config file: services added/removed/reordered/duplicated or the key omitted; JWT roles and public keys added/removed or the key omitted; the plugin configured twice in one file and an edit of the earlier entry only; invalid JSON, wrong type, invalid duration; BRAMBLE_SERVICE_LIST set or not; after every edit a synchronous reload, then the in-memory list, the federated services, the JWT role table and key ids are read back and a fresh start on the same file is taken for comparison; non-trivial = history contains an omitted key, a removal or an unloadable edit"}
 	w := &caseWriter{dir: cfg.out, shard: 60, check: "check_config_case", imports: "From V Require Import Base.Util Model.Config Corr.ConfigCheck."}
 	urls := []string{"http://s1.svc/query", "http://s2.svc/query", "http://s3.svc/query", "http://s4.svc/query", "http://e1.svc/query"}
 	fed := pollOnlyFederation(urls)
@@ -251,6 +259,21 @@ func runC20(cfg runCfg) error {
 					fixed := *prevEdit
 					fixed.Text, fixed.Loadable, fixed.Kind, fixed.Poll = string(b), true, "typo_fix", ""
 					f = &fixed
+				}
+			}
+			if prevEdit != nil && prevEdit.Loadable && prevEdit.TwoEntries && prevEdit.Poll != "bad" && r.Intn(2) == 0 {
+				// an edit that touches only the EARLIER of two entries of the plugin; the later one stays byte-identical
+				var doc map[string]interface{}
+				if json.Unmarshal([]byte(prevEdit.Text), &doc) == nil {
+					if pl, ok := doc["plugins"].([]interface{}); ok && len(pl) == 2 {
+						if e0, ok := pl[0].(map[string]interface{}); ok {
+							e0["config"] = map[string]interface{}{"roles": map[string]interface{}{"early2": map[string]interface{}{"query": "*"}, "user": map[string]interface{}{"query": []string{"e2"}}}}
+							b, _ := json.Marshal(doc)
+							ed := *prevEdit
+							ed.Text, ed.Kind = string(b), "earlier_entry_only"
+							f = &ed
+						}
+					}
 				}
 			}
 			prevEdit = f
